@@ -36,7 +36,7 @@ CHECKS["C07"] = ("bounded-exhaustive enumeration of string/REP spellings x DF x 
     "All 32 string/REP spellings in both cases, every CX up to 16 (quick) / 64 (thorough) plus large spot values, both directions, 4 (DS,ES) pairs incl. 1 MB wrap, overlapping and 0xFFFF-crossing pointers, every position of the first (non-)matching element and none; final machine state compared in full with the reference; every REPEAT answer must decrement CX by one; 9 programs through the real binary. Overlaps by 0-3 bytes in both directions, aliasing segments, segment bits overlapping pointer bits, elements wrapping past the end of memory. Every sequence of up to 3 (thorough 4) instructions over the property's instructions and a 21-instruction context alphabet (incl. data labels and DS/ES changes) is run as one program and compared with the reference after every step.",
     "DESIGN.md section 6 C07")
 CHECKS["C08"] = ("small-scope exhaustive enumeration of all well-formed programs up to K items, each assembled by the real Preprocessor and run by a replica of the driver loop around the real Interpreter (bound to the real driver by running the smaller scopes through the CLI binary), compared with a reference interpreter on the AST",
-    "Every well-formed program with at most 5 (quick) / 6 (thorough) items over a 21-25 item alphabet (labels at every position incl. start, jumps, loop, calls, procedures with explicit/implied ret, macro use, nop, hlt, print): complete executed trace, halt reason and final registers equal the reference interpreter's; programs up to 3/4 items plus hand-built special cases also through the real binary with stdout matched against the reference events. Plus 13 large programs: calls, returns, loops, labels and procedures at emitted indices 65534-70000, 300 procedures nested to call depth 300, recursion 32767-65537 deep; tail recursion and shared procedure/label names through the binary.",
+    "Every well-formed program with at most 5 (quick) / 6 (thorough) items over a 21-25 item alphabet (labels at every position incl. start, jumps, loop, calls, procedures with explicit/implied ret, macro use, nop, hlt, print): complete executed trace, halt reason and final registers equal the reference interpreter's; programs up to 4 items plus hand-built special cases (tail recursion, shared names, label positions) also through the real binary with stdout matched against the reference events. Plus 13 large programs: calls, returns, loops, labels and procedures at emitted indices 65534-70000, 300 procedures nested to call depth 300, recursion 32767-65537 deep; tail recursion and shared procedure/label names through the binary.",
     "DESIGN.md section 6 C08")
 CHECKS["C09"] = ("bounded-exhaustive enumeration of every catalog shape x products of adversarial register/segment values over the registers it reads x memory backgrounds, executed on the real Interpreter built with integer-overflow checks; panics caught; CLI runs for the interrupt services at the top of memory",
     "About 13 000 instruction shapes (every mnemonic x operand form x address form x override) x adversarial products (offsets/values/segments that make seg*16+off straddle 2^20, counts, divisors) x 2 memory backgrounds: every execution must end in a defined State or a reported error - a caught panic (index out of range, arithmetic or shift overflow) or a non-terminating REPEAT is the violation; 135 CLI programs drive INT 10h/21h with buffers at 0xFFFFF.",
